@@ -180,6 +180,38 @@ def partitions(tier, seed):
         prelude=common.PRELUDE, timeout=200, family='rt_method_lenprefix',
         bound='Queue.Declare.arguments with field names of <= 128 characters and up to 255 UTF-8 bytes',
         rep={'ch': 1, 'n': -129, 'durable': True}))
+    parts.append(Part(
+        name='table_values_in_method', params=[('ch', 'int'), ('n', 'int'), ('flag', 'bool')],
+        pre=['0 <= ch <= 65535', '-2**63 <= n < 2**63'],
+        body='def body(ch, n, flag):\n'
+             '    # the table only has to survive inside a method frame; its value kinds are C03\'s subject, a\n'
+             '    # cross-section of them (concrete) rides along here with a symbolic integer and flag\n'
+             '    vals = [("a", n), ("b", flag), ("c", None), ("d", decimal.Decimal("1E+2")), ("e", decimal.Decimal("-1.50")),\n'
+             '            ("f", 1.5), ("g", "x\\u00e9\\U0001f600"), ("h", bytearray(b"\\xce\\x00")), ("i", [n, [flag, None], "s"]),\n'
+             '            ("j", hx.table([("k", hx.table([("l", n)]))])), ("m", decimal.Decimal("0.0000001"))]\n'
+             '    ok = True\n'
+             '    for cls, mk in ((commands.Queue.Declare, lambda t: commands.Queue.Declare(0, "q", False, flag, False, False, False, t)),\n'
+             '                    (commands.Connection.StartOk, lambda t: commands.Connection.StartOk(t, "PLAIN", "r", "en_US")),\n'
+             '                    (commands.Basic.Consume, lambda t: commands.Basic.Consume(0, "q", "c", False, flag, False, False, t))):\n'
+             '        tbl = hx.table(vals)\n'
+             '        data = hx.fix(frame.marshal(mk(tbl), ch))\n'
+             '        c, chan, f = frame.unmarshal(data)\n'
+             '        got = f.client_properties if cls is commands.Connection.StartOk else f.arguments\n'
+             '        ok = ok and c == len(data) and chan == ch and type(f) is cls and len(got) == len(vals)\n'
+             '        for k, v in vals:\n'
+             '            g = got[k]\n'
+             '            if isinstance(v, decimal.Decimal):\n'
+             '                ok = ok and type(g) is decimal.Decimal and g == v and g.as_tuple().exponent == min(v.as_tuple().exponent, 0)\n'
+             '            elif isinstance(v, dict):\n'
+             '                ok = ok and isinstance(g, dict) and g["k"]["l"] == n\n'
+             '            else:\n'
+             '                ok = ok and g == v and type(g) is type(v)\n'
+             '    return ok\n',
+        prelude=common.PRELUDE, timeout=250, family='rt_method_table_values',
+        bound='Queue.Declare / Connection.StartOk / Basic.Consume with an 11-entry table covering every value kind '
+              '(Decimal with positive and negative exponent, float, text, bytearray, nested list and tables), '
+              'integer and flag symbolic',
+        rep={'ch': 1, 'n': -129, 'flag': True}))
     # vacuity twin: same harness with the assertion negated must be refuted
     m = spec.BY_NAME['Basic.Nack']
     params, pre, ctor, checks, rep = common.method_params(m, 1)
